@@ -34,9 +34,11 @@ MANIFEST = {
             "never takes the silent-drop branch, is a permutation of the concatenated per-file streams "
             "(C15_merge_complete/_perm), preserves every file's order (C15_merge_per_file_order), is ordered by ts "
             "(missing ts = 0) whenever every per-file stream is (C15_merge_sorted; raw order implies stream order: "
-            "C15_raw_sorted_stream_sorted); per file, over the grammar X | adjacent B/E | M | other, the stream is "
-            "exactly the expected slices with dur = E.ts - B.ts, skipped = counted (C15_pairing), and every annotated "
-            "event carries the rank latched from the first annotated pid (C15_rank_attr). The model is tied to the code "
+            "C15_raw_sorted_stream_sorted); per file, over the grammar X | adjacent B/E | M, i, b, e (with or without an "
+            "args dict) | other, the stream is exactly the expected slices with dur = E.ts - B.ts, metadata passed on, "
+            "skipped = counted (C15_pairing), and every annotated event carries the rank latched from the first "
+            "annotated pid, in a fresh args dict if it had none (C15_rank_attr); such files never raise "
+            "(C15_wf_files_ok). The model is tied to the code "
             "by a correspondence run of the real MultifileIngest on generated file sets vs vm_compute of the model.",
     "note": "Trusted: Coq kernel + vm_compute; the hand-written model Ingest.v is tied by differential testing only "
             "(exact-grid timestamps so Q and double agree; tiny durations around the 1e-9 tolerance as exact doubles). "
@@ -193,9 +195,10 @@ def tok_kind(tok):
         ph = e.get("ph")
         if ph == "X" and base(e) and "dur" in e:
             return "X"
-        if ph == "M" and base(e, False) and "args" in e and "dur" not in e:
+        # (an "args" dict is optional in the trace event format: events without one are ordinary input)
+        if ph == "M" and base(e, False) and "dur" not in e:
             return "M"
-        if ph == "i" and base(e) and "args" in e and "dur" not in e:
+        if ph in ("i", "b", "e") and base(e) and "dur" not in e:      # instant / async begin, end: annotated, passed on
             return "i"
         if ph == "C" and base(e) and "dur" not in e:
             return "C"
@@ -405,11 +408,11 @@ def gen_file(r, fi, maxtok=8):
                 t = te                               # t itself never leaves the 2^-10 grid
         elif x < 0.87:
             ts = None if (r.random() < 0.5) else t
-            tok = [mk(uid, "M", r.choice(["process_name", "thread_name"]), ts, pid, r, p_args=1.0, p_attr=0)]
+            tok = [mk(uid, "M", r.choice(["process_name", "thread_name"]), ts, pid, r, p_args=0.7, p_attr=0)]
         elif x < 0.94:
             tok = [mk(uid, "C", "ctr", t, pid, r, p_args=0.8, p_attr=0)]
         else:
-            tok = [mk(uid, "i", "inst", t, pid, r, p_args=1.0, p_attr=0)]
+            tok = [mk(uid, r.choice(["i", "i", "b", "e"]), "inst", t, pid, r, p_args=0.6, p_attr=0)]
         f["tokens"].append(tok)
     return f
 
@@ -420,7 +423,7 @@ def gen_case(r, maxfiles=5):
 
 
 DEFECTS = ["lone_E", "B_then_X", "name_mismatch", "trailing_B", "no_pid_first", "no_pid_later", "no_name_B",
-           "no_name_E", "no_ts_E", "no_ts_B", "no_ph", "M_no_args", "ph_empty", "ph_BE", "ph_XB", "ph_Mb",
+           "no_name_E", "no_ts_E", "no_ts_B", "no_ph", "no_args_event", "ph_empty", "ph_BE", "ph_XB", "ph_Mb",
            "C_dur0", "i_durneg", "B_then_B", "E_after_pair", "M_dur0", "X_no_dur", "first_pid_m1_then_X"]
 
 
@@ -463,7 +466,9 @@ def inject(r, case):
     elif d == "no_ph":
         new = [mk(uid, "X", "k", t, pid, r, dur=1)]
         del new[0]["ph"]
-    elif d == "M_no_args":
+    elif d == "no_args_event":
+        # NOT a defect (args is optional): a well-formed M/i/b/e event without args, possibly with an attr dict, at any
+        # position of an otherwise well-formed set - the full oracle applies
         new = [mk(uid, r.choice(["M", "i", "b", "e"]), "process_name", t, pid, r, p_args=0.0, p_attr=0.3)]
     elif d.startswith("ph_"):
         ph = {"ph_empty": "", "ph_BE": "BE", "ph_XB": "XB", "ph_Mb": "Mb"}[d]
@@ -596,7 +601,8 @@ def run(ctx):
     dist = {"files": {}, "events_per_file": {}, "origin": {"corpus": n_corpus, "grid": len(grid), "random": n_rand,
                                                             "malformed": n_mal},
             "defects": inj, "errors": {}, "emitted": 0, "skipped_zero": 0, "skipped_negative": 0,
-            "sets_with_cross_file_ts_tie": 0, "wellformed_sets": 0, "all_streams_ordered": 0}
+            "sets_with_cross_file_ts_tie": 0, "wellformed_sets": 0, "wellformed_sets_with_argless_M_i_b_e": 0,
+            "all_streams_ordered": 0}
     try:
         for origin, c in cases:
             out, tail, paths, fails = check_case(c, work)
@@ -626,6 +632,8 @@ def run(ctx):
             dist["sets_with_cross_file_ts_tie"] += any(len(v) > 1 for v in firsts.values())
             if all(tok_kind(t) for f in c for t in f["tokens"]):
                 dist["wellformed_sets"] += 1
+                dist["wellformed_sets_with_argless_M_i_b_e"] += any(
+                    tok_kind(t) in ("M", "i") and "args" not in t[0] for f in c for t in f["tokens"])
         # distinct failures by kind, shrunk
         oracle_failures, kinds = [], set()
         for c, fl in raw_fail:
@@ -646,7 +654,7 @@ def run(ctx):
         "evaluations": len(cases), "distinct_nontrivial": nontriv,
         "rule": "corpus + all sets of <= 3 files x <= " + str(ctx.pick(2, 3)) + " X events with ts on the grid "
                 + str(ctx.pick([0, 1], [0, 1, 2])) + f" (exhaustive: {len(grid)}) + random well-formed sets of 1-5 files x 0-8 "
-                "tokens (X, adjacent B/E, M with/without ts, C, i; zero/negative/1e-9-boundary durations; list and "
+                "tokens (X, adjacent B/E, M with/without ts, C, i/b/e; M/i/b/e/C with and without an args dict; zero/negative/1e-9-boundary durations; list and "
                 "{traceEvents,distributedInfo,otherData} forms; ordered and unordered files) + a separate malformed "
                 "stream (one injected defect). non-trivial = distinct file sets in which at least two files contribute "
                 f"at least one emitted event (Coq-side rule 'two files yield a first event' over all cases: {extras.get('nt')})",
